@@ -22,7 +22,7 @@ def check(run, tier):
         run.mc("MC_Twin", "MC_Twin_config_fluent")
     r = rng("C16")
     progs = []
-    base = targeted.worklist_programs("evo") + targeted.fault_programs("evo") + targeted.limit_programs("evo") + targeted.device_programs() + targeted.round2_programs("evo") + targeted.config_programs("evo")
+    base = targeted.worklist_programs("evo") + targeted.fault_programs("evo") + targeted.limit_programs("evo") + targeted.device_programs() + targeted.round2_programs("evo") + targeted.config_programs("evo") + targeted.shape_programs("evo")
     for p in base:
         progs += paired(p)
     n = 120 if q else 3000
